@@ -18,7 +18,7 @@ CHECKS = {
    ref='5 C03'),
  'C09': dict(cat='other', tech='bounded run-time contract on x86_mn.__str__ in both syntaxes: re-parse by the matching miasmX parser must contain the original bytes; for compiler-emittable instructions the real GNU assembler (both syntax modes, executed) must accept the text and produce an encoding of the same instruction (compared by the spec decoder)',
    text='Bounded over the same corpus as C03 (canonical encodings incl. boundary variants): Intel and AT&T renderings fed back to asm / asm_att; renderings without relative/far/absolute operands are assembled by GNU as in the matching mode and the output decoded by specs/x86dec.py must denote the same instruction. ~230k obligations quick.',
-   note='Trusted: GNU as, specs/x86dec.py. The att_syntax objdump format is given to GNU as for every instruction and to asm_att where it keeps the mnemonic of the binutils format (asm_att has no size inference from registers); the intel objdump format is not exercised. MMX/SSE not generated.',
+   note='Trusted: GNU as, specs/x86dec.py. The att_syntax objdump format is given to GNU as for every instruction and to asm_att where it keeps the mnemonic of the binutils format (asm_att has no size inference from registers); the intel objdump format is not exercised. MMX/SSE: 5 operand forms per table row and mandatory prefix, both renderings through GNU as and objdump (checks/asmsse.py).',
    ref='5 C09'),
  'C19': dict(cat='other', tech='bounded metamorphic run-time contract on asm / asm_att: set equality of candidates across generated presentation-only rewrites of each accepted line (no oracle beyond the rewrite rules); the term algebra of the operand parser (dict_add/dict_sub/dict_mul) verified from its AST by VC generation (pyvc, z3) against the linear-form view for all integer coefficients over every key shape',
    text='Bounded: for every generated accepted Intel line, 14 rewrites (upper-case registers incl. segment and ST(i), lower-case size keywords, spacing, tabs, hexadecimal 0x/0X immediates and displacements, signed/unsigned immediates at the operand width, index-first, displacement-first, displacement outside brackets, displacement split in two constants, scale-first, st vs st(0)) and the AT&T transliterations GNU as accepts (suffix written or implied, AT&T or Intel mnemonic) must give the same candidate set. 51k lines quick, 1.2M thorough. Proved (5807 obligations): dict_add/dict_sub/dict_mul compute the sum/difference/product of the linear forms their operands denote, keep the no-zero-coefficient invariant, for all coefficients (key sets bounded to eax, ebx, imm, one or two symbols).',
